@@ -101,7 +101,8 @@ def main(argv=None) -> int:
         except HarnessError as e:
             print(f"HARNESS-ERROR property={prop_id} {e}")
             return 2
-        unknown = [v for v in viols if v.key not in known_keys and v.key not in ("INCONCLUSIVE", "REJECTED")]
+        unknown = [v for v in viols if v.key not in known_keys and v.key not in ("INCONCLUSIVE", "REJECTED", "NONTRIVIAL")
+                   and not v.key.startswith("LABEL:")]
         for v in viols:
             print(f"  replay: {v.key}: {v.detail}")
         if unknown:
